@@ -525,19 +525,34 @@ def gibbs_joint(rec, ctx=None):
     else:
         mk_model = lambda: LinearModel(A)
     shape = rec.get("shape", "x_s")
+    xm = float(rec.get("xmean", 0.0)) * np.ones(n)          # prior mean of the x block (x_s, x_d_s)
     if shape == "x_s":          # x | s-independent prior ; noise precision s
         s = Gamma(1.0, 1e-1, name="s")
-        x = Gaussian(np.zeros(n), 1.0, name="x") if rec.get("xprior", "gauss") == "gauss" else \
-            GMRF(np.zeros(n), 3.0, name="x")
-        y = Gaussian(mk_model()(x), cov=lambda s: 1 / s, name="y")
+        x = Gaussian(xm, 1.0, name="x") if rec.get("xprior", "gauss") == "gauss" else \
+            GMRF(xm, 3.0, name="x")
+        if rec.get("noise_C"):
+            Bn = rs.randn(m, m) * 0.3
+            Cn = np.eye(m) + Bn @ Bn.T              # correlated noise with unknown overall precision s
+            y = Gaussian(mk_model()(x), cov=lambda s: (1 / s) * Cn, name="y")
+        else:
+            Cn = None
+            y = Gaussian(mk_model()(x), cov=lambda s: 1 / s, name="y")
         J = JointDistribution(*_perm(rec, [y, x, s]))(y=yobs)
+        out_extra = {"noise_C": Cn}
+    elif shape == "y_x_m":      # three levels of vectors: m ~ N(0, I), x ~ N(B m, 0.5 I), y ~ N(A x, 0.3 I)
+        Bm = rs.randn(n, 2)
+        mm = Gaussian(np.zeros(2), 1.0, name="m")
+        x = Gaussian(LinearModel(Bm)(mm), 0.5, name="x")
+        y = Gaussian(mk_model()(x), 0.3, name="y")
+        J = JointDistribution(*_perm(rec, [y, x, mm]))(y=yobs)
+        return J, {"A": A, "y": yobs, "Bm": Bm, "probes": probes}
     elif shape == "x_d_s":      # prior precision d, noise precision s
         d = Gamma(1.0, 1e-1, name="d")
         s = Gamma(1.0, 1e-1, name="s")
         if rec.get("xprior", "gauss") == "gmrf":
-            x = GMRF(np.zeros(n), prec=lambda d: d, bc_type=rec.get("bc", "zero"), name="x")
+            x = GMRF(xm, prec=lambda d: d, bc_type=rec.get("bc", "zero"), name="x")
         else:
-            x = Gaussian(np.zeros(n), prec=lambda d: d, name="x")
+            x = Gaussian(xm, prec=lambda d: d, name="x")
         y = Gaussian(mk_model()(x), cov=lambda s: 1 / s, name="y")
         J = JointDistribution(*_perm(rec, [y, x, d, s]))(y=yobs)
     elif shape == "x_d_lmrf":   # LMRF prior with scale 1/d, fixed noise
@@ -596,6 +611,8 @@ def gibbs_joint(rec, ctx=None):
     out = {"A": A, "y": yobs, "probes": probes}
     if shape == "x_z_s":
         out["B"] = B
+    if shape == "x_s":
+        out.update(out_extra)
     return J, out
 
 
@@ -611,6 +628,7 @@ GIBBS_SHAPES = {
     "x_s_w": {"x": ["LinearRTO", "MH"], "s": ["Conjugate", "MH"], "w": ["Direct", "Direct", "MH"]},
     "x_d_reg": {"x": ["RegularizedLinearRTO"], "d": ["Conjugate"]},
     "x_s_step": {"x": ["LinearRTO", "MH", "CWMH"], "s": ["Conjugate", "MH"]},
+    "y_x_m": {"x": ["LinearRTO", "LinearRTO", "MH"], "m": ["LinearRTO", "LinearRTO", "MH"]},
     "x_l1_l2": {"x": ["LinearRTO", "LinearRTO", "MH"], "l1": ["Conjugate", "MH"], "l2": ["Conjugate", "Conjugate", "MH"]},
 }
 LEGACY_GIBBS_SHAPES = {
@@ -626,6 +644,10 @@ def gen_gibbs_scenario(r, legacy=False):
     n = r.randint(2, 4)
     rec = {"zseed": r.randrange(1, 10 ** 6), "n": n, "m": n + r.randint(0, 2), "shape": shape,
            "xprior": r.choice(["gauss", "gmrf"])}
+    if shape in ("x_s", "x_d_s") and r.random() < 0.4:
+        rec["xmean"] = r.choice([0.4, -0.7, 1.5])          # non-zero prior mean
+    if legacy and shape == "x_s" and r.random() < 0.4:
+        rec["noise_C"] = True                               # correlated noise with unknown overall precision (legacy Conjugate)
     if shape == "x_d_s" and rec["xprior"] == "gmrf" and r.random() < 0.4:
         rec["bc"] = "neumann"          # improper field: the structure matrix has rank n-1
     if r.random() < 0.5:
@@ -652,6 +674,9 @@ def gen_gibbs_scenario(r, legacy=False):
         if kind in ("MH", "CWMH", "MALA", "ULA", "NUTS", "PCN") and b in ("s", "d", "a", "l1", "l2"):
             kn["initial_point"] = [round(r.uniform(0.5, 2.0), 3)]
         strat[b] = {"kind": kind, "knobs": kn}
+    if rec.get("noise_C"):
+        strat["s"] = {"kind": "Conjugate", "knobs": {}}     # (a random-walk proposal of a negative precision makes the matrix
+                                                            #  covariance indefinite and the Gaussian constructor raise)
     steps = {b: r.choice([1, 1, 2, 3]) for b in strat} if not legacy else None
     if steps and r.random() < 0.2:
         steps.pop(sorted(steps)[0])            # a step count may be omitted for a block (defaults to 1)
